@@ -71,7 +71,7 @@ def _index_to_family(plan, idx):
 
 
 def _work(args):
-    prop_name, tier, base_seed, lo, hi, det_every, budget_s = args
+    prop_name, tier, base_seed, lo, hi, stride, det_every, budget_s = args
     faulthandler.dump_traceback_later(budget_s, exit=True)
     try:
         import importlib
@@ -83,7 +83,9 @@ def _work(args):
                'det_pairs': 0, 'det_mismatch': [], 'errors': [],
                'fam': collections.Counter(), 'xobs': collections.Counter(),
                'nviol': 0}
-        for idx in range(lo, hi):
+        nloop = 0
+        for idx in range(lo, hi, stride):
+            nloop += 1
             fam, i = _index_to_family(plan, idx)
             rng = S.rng_for(base_seed, prop.ID + '/' + fam, i)
             try:
@@ -124,7 +126,7 @@ def _work(args):
                 out['det_pairs'] += 1
                 if res2.digest != res.digest:
                     out['det_mismatch'].append((fam, i))
-            if (idx - lo) % 200 == 199:
+            if nloop % 200 == 0:
                 gc.collect()
         gc.collect()
         return out
@@ -330,9 +332,10 @@ def run_check(prop, argv=None):
     step = (total + nchunks - 1) // nchunks
     budget = 1500 if tier == 'quick' else 6 * 3600
     det_every = 50 if tier == 'quick' else 500
+    # strided work lists: expensive families are spread over all workers
     tasks = [(prop.__name__.rsplit('.', 1)[-1], tier, args.seed, lo,
-              min(total, lo + step), det_every, budget)
-             for lo in range(0, total, step)]
+              total, nchunks, det_every, budget)
+             for lo in range(0, nchunks)]
     agg = {'n': 0, 'sigs': set(), 'stats': collections.Counter(),
            'sim_us': 0, 'viol': [], 'samples': [], 'nontrivial': 0,
            'det_pairs': 0, 'det_mismatch': [], 'errors': [],
